@@ -347,6 +347,49 @@ func (e *secretExec) step(s *SecStep) {
 				}
 			}
 		}
+	case "sizes":
+		// what is accepted reads back, whatever its size: lengths at and just below every power of
+		// two up to 1 MiB (where limits on "the message" and on "the stored value", 40 bytes apart,
+		// would disagree); a refusal at add time is fine, a stored value that cannot be read is not
+		for k := 10; k <= 20; k++ {
+			for _, d := range []int{0, 1, 16, 24, 39, 40, 41} {
+				n := 1<<uint(k) - d
+				plain := make([]byte, n)
+				for i := range plain {
+					plain[i] = byte('a' + (i+s.N)%26)
+				}
+				asStr := (k+d)%2 == 0
+				m := meta.NewMeta()
+				var aerr error
+				if guard(o, "Meta.AddEncrypted (large value)", func() {
+					if asStr {
+						aerr = m.AddEncrypted("k", string(plain), p.Key)
+					} else {
+						aerr = m.AddEncrypted("k", plain, p.Key)
+					}
+				}) {
+					return
+				}
+				o.Eval("C19")
+				e.sig("sizes", fmt.Sprint(k, d, aerr == nil))
+				if aerr != nil {
+					continue
+				}
+				var got []byte
+				var gerr error
+				if asStr {
+					var gs string
+					gs, gerr = m.GetEncryptedString("k", p.Key)
+					got = []byte(gs)
+				} else {
+					got, gerr = m.GetEncryptedBytes("k", p.Key)
+				}
+				if gerr != nil || !bytes.Equal(got, plain) {
+					o.Violate("C19", "roundtrip", fmt.Sprintf("a value of %d bytes (2^%d - %d) was accepted by AddEncrypted and does not read back with the same key (error: %v)", n, k, d, gerr != nil), map[string]string{"size": "near-power-of-two"})
+					return
+				}
+			}
+		}
 	case "overlap":
 		// two encryptions that overlap in time: while the first draws its nonce (inside the call to
 		// the randomness source) a second value is encrypted into another Meta, as a concurrent
@@ -872,6 +915,9 @@ func genSecret(r *Rand, g GenCfg) Plan {
 	p.Steps = append(p.Steps, SecStep{Op: "retain", N: r.Intn(1 << 16)})
 	p.Steps = append(p.Steps, SecStep{Op: "rngfault"})
 	p.Steps = append(p.Steps, SecStep{Op: "overlap", N: r.Intn(10)})
+	if g.Index%8 == 3 {
+		p.Steps = append(p.Steps, SecStep{Op: "sizes", N: r.Intn(26)})
+	}
 	p.Steps = append(p.Steps, SecStep{Op: "view", N: r.Intn(256)})
 	p.Steps = append(p.Steps, SecStep{Op: "kind"})
 	p.Steps = append(p.Steps, SecStep{Op: "extend"})
